@@ -32,6 +32,8 @@ FAMILIES = {
         {'family': 'tlc', 'knobs': {}, 'quick': 320, 'thorough': 3200, 'first': 500000},
         {'family': 'core', 'knobs': {}, 'quick': 300, 'thorough': 5000},
         {'family': 'core', 'knobs': {'late_actions': True, 'p_cancel': 0.2}, 'quick': 150, 'thorough': 2500, 'first': 100000},
+        {'family': 'core', 'knobs': {'late_actions': True, 'p_cancel': 0.3, 'p_auto_request': 0.8, 'p_cancel_race': 0.8,
+                                     'kinds': ['stream', 'stream', 'channel']}, 'quick': 150, 'thorough': 2500, 'first': 200000},
     ],
     'C09': [
         {'family': 'tlc', 'knobs': {}, 'quick': 320, 'thorough': 3200, 'first': 500000},
